@@ -88,6 +88,7 @@ fn main() {
         let f = std::fs::File::open(&args[2]).expect("open replay file");
         let mut n = 0usize;
         let mut panics = 0usize;
+        let mut mismatches = 0usize;
         for line in std::io::BufReader::new(f).lines() {
             let line = line.expect("read");
             if line.trim().is_empty() {
@@ -100,9 +101,12 @@ fn main() {
             if s.contains("\"panic\":{") {
                 panics += 1;
                 writeln!(out, "{s}").unwrap();
+            } else if s.contains("\"mismatches\":[{") {
+                mismatches += 1;
+                writeln!(out, "{s}").unwrap();
             }
         }
-        writeln!(out, "{}", json!({"replayed": n, "panics": panics})).unwrap();
+        writeln!(out, "{}", json!({"replayed": n, "panics": panics, "mismatches": mismatches})).unwrap();
         out.flush().unwrap();
         return;
     }
